@@ -24,7 +24,10 @@ def gen(ctx, q):
             ns = [0, 1, 9]
         if (sb, ch) in (("ALAC_16", 2), ("ALAC_32", 1), ("ALAC_24", 8)):
             ns = ns + [9000]
-        rates = RATES if not q else [8000, rng.choice(RATES), rng.choice([2 ** 30 - 1, 2 ** 31 - 1, 1, 65536])]
+        # (a rate with something in every byte of a 32-bit field -- 2^24+1, 0x01020304, 20 000 000, 2^27-1 -- is always among them: readers that
+        # give one byte of the field another meaning only show there)
+        rates = RATES + [0x01020304, 20000000, 2 ** 27 - 1] if not q else [8000, rng.choice(RATES), rng.choice([2 ** 30 - 1, 2 ** 31 - 1, 1, 65536]),
+                                                                           rng.choice([2 ** 24 + 1, 0x01020304, 20000000, 2 ** 27 - 1])]
         for rate in rates:
             if mj in ("SVX", "MPC2K") and rate > 65535:
                 continue            # 16-bit rate field: outside the container's domain
